@@ -539,6 +539,7 @@ class Server(base_server.BaseServer):
             self._send_packet(eio_sid, self.packet_class(
                 packet.CONNECT, {'sid': sid}, namespace=namespace))
         fail_reason = exceptions.ConnectionRefusedError().error_args
+        error = None
         try:
             if data:
                 success = self._trigger_event(
@@ -552,6 +553,10 @@ class Server(base_server.BaseServer):
                         'connect', namespace, sid, self.environ[eio_sid], None)
         except exceptions.ConnectionRefusedError as exc:
             fail_reason = exc.error_args
+            success = False
+        except Exception as exc:
+            # a connect handler that fails has not accepted the client
+            error = exc
             success = False
 
         if success is False:
@@ -569,6 +574,8 @@ class Server(base_server.BaseServer):
             # (a connect handler may have disconnected the client itself)
             self._send_packet(eio_sid, self.packet_class(
                 packet.CONNECT, {'sid': sid}, namespace=namespace))
+        if error is not None:
+            raise error
 
     def _handle_disconnect(self, eio_sid, namespace, reason=None):
         """Handle a client disconnect."""
